@@ -27,7 +27,7 @@ def mk_tt(run, name, **kw):
         ok = len(args) == 2 + len(UARGS) and not kw2 and all(a is b for a, b in zip(args[2:], UARGS)) \
             and z3.is_expr(args[0]) and z3.is_expr(args[1])
         run2.oblige('site', 'callback-args:test_transmission', lineno,
-                    And(args[0] == run2.cur_env['u'], args[1] == run2.cur_env['v']) if ok else BoolVal(False))
+                    And(args[0] == run2.local('u'), args[1] == run2.local('v')) if ok else BoolVal(False))
         calls = run2.ghost.setdefault('tt_calls', [])
         calls.append((args[0], args[1]) if ok else None)
         return TT()(args[0], args[1]) if ok else fresh('tt', B)
@@ -37,7 +37,7 @@ def mk_tt(run, name, **kw):
 def mk_tr(run, name, **kw):
     def fn(run2, args, kw2, lineno):
         ok = len(args) == 1 and not kw2 and z3.is_expr(args[0])
-        run2.oblige('site', 'callback-args:test_recovery', lineno, (args[0] == run2.cur_env['u']) if ok else BoolVal(False))
+        run2.oblige('site', 'callback-args:test_recovery', lineno, (args[0] == run2.local('u')) if ok else BoolVal(False))
         return TRf()(args[0]) if ok else fresh('tr', B)
     return Callback('test_recovery', fn)
 
